@@ -439,5 +439,6 @@ pub fn run_c10(ctx: &Ctx) -> (&'static str, Map<String, Value>) {
     m.insert("lifecycle_transitions".into(), json!(life_agg.transitions.load(std::sync::atomic::Ordering::Relaxed)));
     m.insert("rule".into(), json!("per configuration: the valid buffer (model-built, compared with what keygen writes) under every single-bit flip, truncation to every length, padding 1..n+4, marker zeroed, foreign buffers, garbage patterns, the half-initialised buffer left by sign on a fresh buffer, planted wrong nodes, buffers cut inside the MAC whose contents are also wrong (two faults); fresh zero buffers at every level-boundary length; each faulty buffer is driven through keygen and through sign followed by a second sign with the buffer as left behind, and (two-step fault sequence) through keygen / sign right after the same operation used the intact buffer in the same process; every run is compared with the aux-less run"));
     m.insert("exhaustive".into(), json!(true));
+    crate::props_build::restricted_cross(ctx, &mut m, |t, _| matches!(t, crate::probe_tasks::Task::Keygen { aux_len: Some(_), .. } | crate::probe_tasks::Task::SignAt { aux_len: Some(_), .. }));
     ("fault_enumeration", m)
 }
